@@ -30,7 +30,7 @@ Init0 == [case |-> 0, req |-> None, hasReq |-> FALSE,
           bs |-> [term |-> "none"], hasB |-> FALSE,
           mainH |-> NoHead, mainIsGet |-> FALSE, mainB |-> [total |-> 0], hasMain |-> FALSE,
           ib |-> [k |-> "none"], ibOK |-> FALSE,
-          convLen |-> 0,
+          convLen |-> 0, isFile |-> FALSE,   \* isFile: the entity is a real ChunkedReadFile (no stream log)
           viol |-> {}, drift |-> {}, cases |-> 0, heads |-> 0, pollsN |-> 0]
 
 Bad(s, ln, ids, what) == {<<s.case, ln, id, what>> : id \in ids}
@@ -66,7 +66,7 @@ OnReset(s, e) == [Init0 EXCEPT !.case = e.case, !.viol = s.viol, !.drift = s.dri
                                !.cases = s.cases + 1, !.heads = s.heads, !.pollsN = s.pollsN]
 
 OnReq(s, e) == [s EXCEPT !.req = [mclass |-> e.mclass, ent |-> e.ent, abs |-> e.abs],
-                         !.hasReq = TRUE]
+                         !.hasReq = TRUE, !.isFile = e.file]
 
 OnHead(s, e, ln) ==
   IF ~s.hasReq THEN s
@@ -98,7 +98,7 @@ OnHead(s, e, ln) ==
       dr == IF Strict /\ inDom /\ (req2.ent.mt.k = "none" \/ h.date.k = "secs")
             THEN IF HeadCore(h) # ImplCore(IF req2.ent.mt.k = "none" THEN ImplHead(req2, 0) ELSE ih)
                  THEN {<<s.case, ln, "head">>}
-                 ELSE IF envCalls # ImplInitialCalls((IF req2.ent.mt.k = "none" THEN ImplHead(req2, 0) ELSE ih).body)
+                 ELSE IF ~s.isFile /\ envCalls # ImplInitialCalls((IF req2.ent.mt.k = "none" THEN ImplHead(req2, 0) ELSE ih).body)
                       THEN {<<s.case, ln, "initial get_range calls">>} ELSE {}
             ELSE {}
       ibInit == IF req2.ent.mt.k = "none" THEN ImplInitFor(req2, h, 0)
@@ -109,7 +109,7 @@ OnHead(s, e, ln) ==
                !.mainIsGet = IF isMain THEN isGet ELSE s.mainIsGet,
                !.hasMain = IF isMain THEN TRUE ELSE s.hasMain,
                !.ib = IF Strict /\ inDom THEN ibInit ELSE [k |-> "none"],
-               !.ibOK = Strict /\ inDom /\ dr = {} /\ ibInit.k # "none",
+               !.ibOK = Strict /\ inDom /\ dr = {} /\ ibInit.k # "none" /\ ~s.isFile,
                !.heads = s.heads + 1,
                !.drift = s.drift \cup dr,
                !.viol = s.viol \cup Bad(s, ln, fails, "head") \cup Bad(s, ln, c13calls, "entity read for non-GET/HEAD")
